@@ -214,7 +214,9 @@ fn percent_decode_lossless(t: &[u8]) -> Vec<u8> {
         out.push(t[i]);
         i += 1;
     }
-    if std::str::from_utf8(&out).is_ok() { out } else { t.to_vec() }
+    // the bytes, whether or not they are UTF-8: the statement speaks of the percent-decoded path, and an escape such as
+    // `%ff` does not make the `%2e%2e%2f` next to it any less of a dot segment
+    out
 }
 
 static PREPARE_CONSULTED: std::sync::atomic::AtomicUsize = std::sync::atomic::AtomicUsize::new(0);
